@@ -200,6 +200,64 @@ fn points_and_promises_case<P: G>(cfg: Cfg) -> Box<dyn Case> {
     })
 }
 
+/// Statement shapes: whatever `RangeStatement::init` accepts (commitment count x promise count x seed) is a statement the
+/// verifier must handle without panicking, alone and as the second member of a batch, in every mode
+fn statement_shapes_case<P: G>(n: usize, d: usize) -> Box<dyn Case> {
+    case(format!("{}/n={},d={}/statement-shapes", P::NAME, n, d), move |_v| {
+        fg::clear_intern();
+        let mut res = CaseResult::new("explored");
+        let params = P::params(n, 4, P::pc_gens(d)).honest();
+        // an honest companion to put in front
+        let comp_cfg = Cfg::new(n, 1, 4, d);
+        let comp_wit = Wit::default_for(&comp_cfg);
+        let comp_commitments = commitments_for(params.pc_gens(), &comp_wit).honest();
+        let comp_st = P::statement(params.clone(), comp_commitments, comp_wit.promises.clone(), None).honest();
+        let comp_built = Built { params: params.clone(), statement: comp_st.clone(), witness: witness_for(&comp_wit).honest(), commitments: vec![] };
+        let comp_proof = lib_prove_honest(&comp_built, &CTX_A, &mut HRng::chacha(77));
+        for count in [1usize, 2, 3, 4] {
+            let cfg = Cfg::new(n, count.next_power_of_two().min(4), 4, d);
+            let wit = Wit::default_for(&cfg);
+            let all_commitments = commitments_for(params.pc_gens(), &wit).honest();
+            // the honest proof for the power-of-two aggregate (material for the verifier; any proof would do)
+            let honest_st = match P::statement(params.clone(), all_commitments.clone(), wit.promises.clone(), None) {
+                Ok(s) => s,
+                Err(_) => continue,
+            };
+            let honest_built = Built { params: params.clone(), statement: honest_st, witness: witness_for(&wit).honest(), commitments: vec![] };
+            let proof = lib_prove_honest(&honest_built, &CTX_A, &mut HRng::chacha(78));
+            let commitments: Vec<P> = all_commitments.iter().take(count).cloned().collect();
+            for pcount in [0usize, count.saturating_sub(1), count, count + 1] {
+                for pval in [None, Some(0u64), Some(1)] {
+                    for seed in [None, Some(seed_scalar(3))] {
+                        let promises: Vec<Option<u64>> = vec![pval; pcount];
+                        let st = match catch(|| P::statement(params.clone(), commitments.clone(), promises.clone(), seed)) {
+                            Ok(Ok(st)) => st,
+                            Ok(Err(_)) => {
+                                *res.outcome_counter("statement-refused") += 1;
+                                continue;
+                            },
+                            Err(p) => {
+                                res.violate(format!("count={},promises={}/init", count, pcount), format!("statement constructor panicked: {}", p));
+                                continue;
+                            },
+                        };
+                        *res.outcome_counter("statement-accepted") += 1;
+                        res.transitions += 1;
+                        for mode in MODES {
+                            let sub = format!("commitments={},promises={}x{:?},seed={}/{}", count, pcount, pval, seed.is_some(), mode_name(mode));
+                            let (obs, _) = measured_verify(std::slice::from_ref(&st), std::slice::from_ref(&proof), &[CTX_A], mode);
+                            expect_no_panic(&obs, &format!("{}/alone", sub), &mut res);
+                            let (obs, _) = measured_verify(&[comp_st.clone(), st.clone()], &[P::proof_clone(&comp_proof), P::proof_clone(&proof)], &[CTX_A, CTX_A], mode);
+                            expect_no_panic(&obs, &format!("{}/second-in-batch", sub), &mut res);
+                        }
+                    }
+                }
+            }
+        }
+        res
+    })
+}
+
 const BK: [&str; 8] = [
     "honest",
     "honest-m2",
@@ -437,6 +495,10 @@ pub fn build_cases(tier: Tier) -> Vec<Box<dyn Case>> {
             }
             frontier = next;
         }
+    }
+    for (n, d) in [(2usize, 1usize), (8, 2)] {
+        cases.push(statement_shapes_case::<F>(n, d));
+        cases.push(statement_shapes_case::<RistrettoPoint>(n, d));
     }
     for m in [512usize, 1024] {
         cases.push(huge_aggregation_case::<F>(m));
